@@ -298,6 +298,70 @@ func reachWithout(fn *ssa.Function, target ssa.Instruction, empties, idles, fail
 	return false
 }
 
+// ruleFailedSenderReleasesCloser: when a sender-failed flag exists, the quiescence predicate consults it before
+// anything else and answers true on its set side - otherwise a Close issued by (or after) a failed sender
+// waits on a queue nobody drains. Shared by C05/C06/C07.
+func ruleFailedSenderReleasesCloser(c *core.Ctx, e *ev, R string) {
+	p := c.P
+	flags := e.senderFailedFlags()
+	if len(flags) == 0 {
+		return
+	}
+	K := e.r.Closer
+	core.AllInstrs(K, func(in ssa.Instruction) {
+		call, ok := in.(*ssa.Call)
+		if !ok || call.Call.IsInvoke() {
+			return
+		}
+		f := call.Call.StaticCallee()
+		if f == nil || !p.InRepo(f) || f.Signature.Results().Len() != 1 || !isBool(f.Signature.Results().At(0).Type()) {
+			return
+		}
+		q := &core.Query{P: p, Pred: func(x ssa.Instruction) bool { return e.runningLoad(x) || e.queueLen(x) }}
+		if !q.May(f, nil) {
+			return
+		}
+		c.Instance(R)
+		failed := e.failedEdges(f)
+		good := len(failed) > 0
+		why := "the quiescence predicate never consults the sender-failed flag"
+		for k := range failed {
+			// the test sits before any queue / flag observation
+			var obs ssa.Instruction
+			core.AllInstrs(f, func(x ssa.Instruction) {
+				if (e.queueLen(x) || e.runningLoad(x)) && obs == nil {
+					if !k[0].Dominates(x.Block()) || k[0] == x.Block() {
+						// observation in a block not dominated by the failed test, or in the same block before it
+						if k[0] != x.Block() {
+							obs = x
+						} else {
+							// same block: is the observation before the If? always (If is last) -> observation precedes the test
+							obs = x
+						}
+					}
+				}
+			})
+			if obs != nil {
+				good, why = false, "the sender-failed flag is consulted only after observing the queue / the running flag: with packets still queued behind a failed batch the closer waits forever (the channel never finishes closing)"
+			}
+			// set side returns true on every path
+			t, _ := core.Search(nil, k[1], func(x ssa.Instruction) core.Action {
+				if ret, ok := x.(*ssa.Return); ok {
+					if kc, ok := ret.Results[0].(*ssa.Const); ok && constBool(kc) {
+						return core.Barrier
+					}
+					return core.Target
+				}
+				return core.Continue
+			}, nil)
+			if t != nil {
+				good, why = false, "on the sender-failed side the predicate does not answer true unconditionally"
+			}
+		}
+		c.Check(good, R, "failed-sender-releases-closer/"+core.FName(f), p.Pos(f.Pos()), "a failed sender releases a waiting Close immediately", why)
+	})
+}
+
 func runC06(c *core.Ctx) {
 	e, ok := newEv(c)
 	if !ok {
